@@ -70,9 +70,8 @@ def generate(repo):
     if not mo or mo.group(1) != m[0]:
         raise RuntimeError('interpolate.c interpolate: body changed: %r' % norm(func_body(src, 'interpolate')))
     # the counter is touched at exactly these two places and never initialised to anything but 0
+    # occurrences of the counter: the field, one ++ test, one --  (Interp/InterpTie.v tie_depth demands src_depth_sites = 2)
     ndepth = len(re.findall(r'\bdepth\b', re.sub(r'/\*.*?\*/', ' ', src, flags=re.S)))
-    if ndepth != 3:
-        raise RuntimeError('interpolate.c: the depth counter is used at %d places (expected the field, one ++ test, one --)' % ndepth)
     if norm(func_body(src, 'interpolate_file')).count(FILE_LOOP) != 1:
         raise RuntimeError('interpolate.c interpolate_file: the line loop changed')
     if 'return interpolate(&c, bf, str);' not in norm(func_body(src, 'interpolate_buffer')):
@@ -85,11 +84,9 @@ def generate(repo):
         'Definition src_dollar : N := %d%%N.' % cchar(dollar),
         'Definition src_lbrace : N := %d%%N.' % cchar(lbrace),
         'Definition src_rbrace : N := %d%%N.' % cchar(rbrace),
-        '(* the tests behind a reference opener, in source order: no brace, no closing brace, empty name, lookup;',
-        '   IGNORE_LOOKUP_ERRORS copies p .. ve inclusive and goes on behind ve; a value is interpolated one level deeper *)',
-        'Definition src_test_order : list nat := [0; 1; 2; 3]%nat.',
-        'Definition src_ignore_copies_reference : bool := true.',
-        '(* interpolate: one pre-increment test against the limit on entry, one decrement after interpolate_inner, nothing else *)',
+        '(* the order of the tests behind a reference opener, the IGNORE_LOOKUP_ERRORS copy and the place of the increment and',
+        '   decrement are pinned as TEXT by the translator (anchored patterns over the three function bodies), not as constants *)',
+        '(* interpolate: occurrences of the depth counter besides its declaration (one pre-increment test, one decrement) *)',
         'Definition src_depth_sites : nat := %d.' % (ndepth - 1),
         'Definition src_depth_limit : nat := %s.' % mo.group(1),
         '(* diagnostics after "invalid substitution, ": brace, close, empty, unknown, deep *)',
